@@ -113,7 +113,7 @@ ROUNDERS = ("round", "floor", "ceil", "trunc", "round_ties_even", "rint")
 INT_T = ("u64", "i64", "u128", "i128")       # coefficient words; usize casts are sizes / bit counts
 
 
-def run_round(facts, rep, floor=4):
+def run_round(facts, rep, floor=1):
     R = "R-ROUND"
     rep.rule(R, "every float-to-integer cast of the CKKS encoders takes a value that was rounded (round / floor / ceil / trunc), or "
              "`|x| + 0.5` with the absolute value inside the offset")
